@@ -164,6 +164,57 @@ def execute(prop, seed, idx, tree=None, keep=False, tier="quick",
 
 
 _KNOWN = {}
+_WARM = set()
+
+
+def execute_isolated(prop, seed, idx, tree=None, keep=False, tier="quick",
+                     want_tree=False, timeout=None):
+    """Run `execute` in a forked child so that every simulated run starts from
+    the same pristine post-import state of hydrodiy and of the harness
+    (module-level caches, key-name registries, numpy RNG, matplotlib state
+    left by an earlier run in the same worker cannot leak into this one; a
+    replay in a fresh interpreter starts from that same state)."""
+    import pickle
+    import select
+    eng = engine_for(prop)              # import before forking
+    if prop not in _WARM:
+        _WARM.add(prop)
+        if hasattr(eng, "warmup"):
+            eng.warmup()                # import everything a run will need
+        import gc
+        gc.collect()
+        gc.freeze()
+    r, w = os.pipe()
+    pid = os.fork()
+    if pid == 0:
+        code = 0
+        try:
+            os.close(r)
+            res = execute(prop, seed, idx, tree=tree, keep=keep, tier=tier,
+                          want_tree=want_tree)
+            data = pickle.dumps(res)
+            with os.fdopen(w, "wb") as f:
+                f.write(data)
+        except BaseException:
+            code = 1
+        finally:
+            os._exit(code)
+    os.close(w)
+    chunks = []
+    with os.fdopen(r, "rb") as f:
+        while True:
+            b = f.read(1 << 16)
+            if not b:
+                break
+            chunks.append(b)
+    _, status = os.waitpid(pid, 0)
+    data = b"".join(chunks)
+    if not data:
+        return {"idx": idx, "result": "harness_error", "sig": "", "inv": "",
+                "detail": f"isolated run ended without a result (wait status "
+                          f"{status})", "digest": "", "nev": 0, "kinds": "",
+                "stats": {}, "known_seen": {}, "states": [], "ndraws": 0}
+    return pickle.loads(data)
 
 
 def _worker_init():
@@ -176,7 +227,7 @@ def _chunk(prop, seed, idxs, tier, budget_s):
     out = []
     try:
         for i in idxs:
-            r = execute(prop, seed, i, tier=tier)
+            r = execute_isolated(prop, seed, i, tier=tier)
             r.pop("trace", None)
             if r["result"] == "ok":
                 r.pop("tree", None)
@@ -209,8 +260,9 @@ def fresh_digests(prop, seed, idxs, tier, hashseed="1", timeout=600):
 
 def replay_file(path, keep=True):
     js = json.loads(Path(path).read_text())
-    r = execute(js["property"], js["seed"], js["run_index"], tree=js["tree"],
-                keep=keep, tier=js.get("tier", "quick"))
+    r = execute_isolated(js["property"], js["seed"], js["run_index"],
+                         tree=js["tree"], keep=keep,
+                         tier=js.get("tier", "quick"))
     return js, r
 
 
@@ -229,7 +281,8 @@ def minimise_and_report(prop, seed, tier, vres):
     idx = vres["idx"]
 
     def test(tree):
-        r = execute(prop, seed, idx, tree=tree, tier=tier, want_tree=True)
+        r = execute_isolated(prop, seed, idx, tree=tree, tier=tier,
+                             want_tree=True)
         if r["result"] == "violation" and r["sig"] == sig:
             return r["tree"]
         return None
@@ -240,8 +293,8 @@ def minimise_and_report(prop, seed, tier, vres):
         return None, "violation did not reproduce from its own recorded tree"
     budget = getattr(engine_for(prop), "MINIMISE", {})
     tree, nexec = minimise(norm, test, **budget)
-    final = execute(prop, seed, idx, tree=tree, keep=True, tier=tier,
-                    want_tree=True)
+    final = execute_isolated(prop, seed, idx, tree=tree, keep=True, tier=tier,
+                             want_tree=True)
     OUT.joinpath("replays").mkdir(parents=True, exist_ok=True)
     path = OUT / "replays" / f"{prop}-{seed}-{idx}.json"
     js = {"property": prop, "seed": seed, "run_index": idx, "tier": tier,
@@ -378,7 +431,7 @@ def write_evidence(prop, tier, seed, eng, ordered, wall, nviol, nself,
     # a few decoded samples: re-execute with trace kept
     samples = []
     for i in [r["idx"] for r in ordered if r["stats"].get("nontrivial", 0)][:3]:
-        rr = execute(prop, seed, i, keep=True, tier=tier)
+        rr = execute_isolated(prop, seed, i, keep=True, tier=tier)
         samples.append({"run_index": i, "digest": rr["digest"],
                         "events": rr["trace"][:60]})
     faults = {k[len("fault."):]: v for k, v in stats.items()
